@@ -11,6 +11,10 @@ import FeatModel.Lemmas.C17Termination
 import FeatModel.Lemmas.C17TermColored
 import FeatModel.Lemmas.C17ErrLayered
 import FeatModel.Lemmas.C17ErrColored
+import FeatModel.Lemmas.C17ErrColored2
+import FeatModel.Lemmas.C17History
+import FeatModel.Lemmas.C17Partition
+import FeatModel.Lemmas.C17Combine
 /-! # C17 — threaded assembly is race-free, terminates and equals the serial result
 
 All theorems are about the model functions that `drv_c17` executes and that the correspondence run compares with
@@ -18,9 +22,7 @@ All theorems are about the model functions that `drv_c17` executes and that the 
 stream, where every recorded event log of a real run must be a run of these transition systems).
 
 Not proved here (observed by the correspondence run and its oracle only): the scheduler's fairness (assumed, see
-the termination section); for the colored ERROR path only deadlock-freedom and "same colour" are proved
-(`colored_err_safe_partial` lacks the position bounds of `colored_safe`; no variant function); the error path of jobs
-without scatter; the C++ memory model (sequentially consistent
+the termination section); the error path of master-only (`assemble_master`) jobs; the C++ memory model (sequentially consistent
 atomic steps are assumed; ThreadSanitizer observes the real code). -/
 open FeatModel.DA FeatModel.Adj
 
@@ -437,16 +439,177 @@ theorem C17.colored_err_no_deadlock (c : CCfg) (hn : 1 ≤ c.n) (s : CESt) (hs :
     (hf : CCfg.efinal s = false) : ∃ e s', c.estep s e = some s' :=
   FeatModel.DA.colored_err_no_deadlock c hn s hs hf
 
-/-- colored error path: workers that scatter at the same time still work on the same colour -/
-theorem C17.colored_err_safe_partial (c : CCfg) (hn : 1 ≤ c.n) (s : CESt) (hs : c.EReach s) (a b : Nat)
+/-- colored error path, full safety: non-failing workers that scatter at the same time work on the same colour, each
+inside its own share -/
+theorem C17.colored_err_safe (c : CCfg) (hn : 1 ≤ c.n) (s : CESt) (hs : c.EReach s) (a b : Nat)
     (ha : 1 ≤ a ∧ a ≤ c.n) (hb : 1 ≤ b ∧ b ≤ c.n)
     (hA : s.base.ph a = .insc ∧ s.failing a = false) (hB : s.base.ph b = .insc ∧ s.failing b = false) :
-    s.base.col a = s.base.col b :=
-  FeatModel.DA.colored_err_safe c hn s hs a b ha hb hA hB
+    s.base.col a = s.base.col b ∧ c.cbeg (s.base.col a) a ≤ s.base.pos a ∧ s.base.pos a < c.cend (s.base.col a) a :=
+  FeatModel.DA.colored_err_safe_full c hn s hs a b ha hb hA hB
+
+/-- colored error path: combine() stays mutually exclusive among the non-failing workers -/
+theorem C17.colored_err_combine_mutex (c : CCfg) (s : CESt) (hs : c.EReach s) (a b : Nat)
+    (ha : 1 ≤ a ∧ a ≤ c.n) (hb : 1 ≤ b ∧ b ≤ c.n)
+    (hA : s.base.ph a = .inComb ∧ s.failing a = false) (hB : s.base.ph b = .inComb ∧ s.failing b = false) : a = b :=
+  FeatModel.DA.colored_err_combine_mutex c s hs a b ha hb hA hB
+
+/-- colored error path: termination for every interleaving, every failing worker and every failure position - a
+variant function decreases with every transition, runs are bounded, maximal runs are final -/
+theorem C17.colored_err_terminates (c : CCfg) (hn : 1 ≤ c.n) (s : CESt) (hs : c.EReach s) :
+    (∀ e s', c.estep s e = some s' → c.emeasure s' < c.emeasure s) ∧
+    (∀ es s', c.erun s es = some s' → es.length + c.emeasure s' ≤ c.emeasure s) ∧
+    ((∀ e, c.estep s e = none) → CCfg.efinal s = true) ∧
+    (∃ es s', c.erun s es = some s' ∧ CCfg.efinal s' = true) :=
+  ⟨fun e s' h => FeatModel.DA.colored_err_variant_decreases c hn s hs e s' h,
+   fun es s' h => FeatModel.DA.colored_err_runs_bounded c hn s hs es s' h,
+   fun hmax => FeatModel.DA.colored_err_maximal_run_final c hn s hs hmax,
+   FeatModel.DA.colored_err_terminates c hn s hs⟩
 
 theorem C17.colored_err_conservative (c : CCfg) (s : CSt) (hs : c.Reach s) :
     ∃ es : CESt, c.EReach es ∧ es.base = s ∧ (∀ t, es.failing t = false) ∧ es.allOkay = true :=
   FeatModel.DA.colored_err_conservative c s hs
+
+/-- error path of jobs without scatter (every strategy): no deadlock, combine exclusive, terminating, conservative -/
+theorem C17.noscatter_err_no_deadlock (c : NCfg) (s : NESt) (hs : c.EReach s) (hf : NCfg.efinal s = false) :
+    ∃ e s', c.estep s e = some s' :=
+  FeatModel.DA.noscatter_err_no_deadlock c s hs hf
+
+theorem C17.noscatter_err_combine_mutex (c : NCfg) (s : NESt) (hs : c.EReach s) (a b : Nat)
+    (ha : 1 ≤ a ∧ a ≤ c.n) (hb : 1 ≤ b ∧ b ≤ c.n)
+    (hA : s.base.ph a = .inComb ∧ s.failing a = false) (hB : s.base.ph b = .inComb ∧ s.failing b = false) : a = b :=
+  FeatModel.DA.noscatter_err_combine_mutex c s hs a b ha hb hA hB
+
+theorem C17.noscatter_err_terminates (c : NCfg) (s : NESt) (hs : c.EReach s) :
+    (∀ e s', c.estep s e = some s' → c.emeasure s' < c.emeasure s) ∧
+    (∃ es s', c.erun s es = some s' ∧ NCfg.efinal s' = true) :=
+  FeatModel.DA.noscatter_err_terminates c s hs
+
+theorem C17.noscatter_err_conservative (c : NCfg) (s : NSt) (hs : c.Reach s) :
+    ∃ es : NESt, c.EReach es ∧ es.base = s ∧ (∀ t, es.failing t = false) ∧ (∀ t, es.exited t = false) :=
+  FeatModel.DA.noscatter_err_conservative c s hs
+
+/-! ### tiny meshes, worker ranges, history independence -/
+
+/-- every strategy, every requested worker count (also more workers than cells, one cell, no cell): on the output of
+`compile` the cells prepared by the master (only when no worker threads are used) and by the workers `1..nW` - empty
+ranges included - are exactly the selected cells, each once; for jobs with and without scatter -/
+theorem C17.workers_partition (strategy maxW nvt : Nat) (cells : List (List Nat)) (sel : List Nat)
+    (hsel : ∀ c, c ∈ sel → ∀ v, v ∈ cells.getD c [] → v < nvt)
+    (d : Dist) (h : compile strategy maxW nvt cells sel = some d) (ns : Bool) :
+    ((List.range (d.nW + 1)).flatMap (fun w => workerCells d ns w)).Perm sel :=
+  compile_workers_partition strategy maxW nvt cells sel hsel d h ns
+
+/-- the number of worker threads actually used is never 1 and never exceeds the request -/
+theorem C17.compile_nW (strategy maxW nvt : Nat) (cells : List (List Nat)) (sel : List Nat)
+    (d : Dist) (h : compile strategy maxW nvt cells sel = some d) : d.nW ≠ 1 ∧ d.nW ≤ maxW :=
+  FeatModel.DA.compile_nW strategy maxW nvt cells sel d h
+
+/-- no cell selected: nothing to do, no worker, no fence -/
+theorem C17.compile_empty (strategy maxW nvt : Nat) (cells : List (List Nat)) :
+    compile strategy maxW nvt cells [] = some ⟨strategy, 0, [], [], [], [], 0⟩ :=
+  FeatModel.DA.compile_empty strategy maxW nvt cells
+
+/-- history independence: the work distribution is immutable after `compile` and the only assembler state a job can
+change is the fence vector (the thread statistics are a documented cache, not modelled); after ANY two histories on
+the same assembler the same next job has the same start state, the same runs, and leaves the same fence vectors -/
+theorem C17.history_independent {nF : Nat} {fs1 fs2 : List Bool} (h1 : Session nF fs1) (h2 : Session nF fs2) :
+    (∀ c : LCfg, c.startJob fs1 = c.startJob fs2) ∧ (∀ c : CCfg, c.startJob fs1 = c.startJob fs2) ∧
+    (∀ c : NCfg, c.startJob fs1 = c.startJob fs2) ∧
+    (∀ (j : Job) (fs' : List Bool), j.leaves fs1 fs' ↔ j.leaves fs2 fs') :=
+  ⟨fun c => c.startJob_indep fs1 fs2, fun c => c.startJob_indep fs1 fs2, fun c => c.startJob_indep fs1 fs2,
+   fun j fs' => Session.next_job_indep h1 h2 j fs'⟩
+
+/-! ### the combine phase in detail (lock acquire / body / release), every strategy
+
+`xstep` splits `center` / `cleave` of the protocol machines into `lock`, `cbeg`, `cend`, `unlock`; the driver replays
+the recorded lock events (hook H2b) or, without them, the instrumented job's mutex probe on these machines. -/
+
+/-- layered / layered_sorted: at most one worker holds `_thread_mutex`, at most one is in the body of `combine()`, and a body only
+runs while its worker holds the mutex - for all interleavings -/
+theorem C17.layered_combine_exclusive (c : LCfg) (s : XSt LSt) (hs : c.XReach s) (a b : Nat)
+    (ha : 1 ≤ a ∧ a ≤ c.n) (hb : 1 ≤ b ∧ b ≤ c.n) :
+    (holdsLock (fun s => s.ph) s a → holdsLock (fun s => s.ph) s b → a = b) ∧
+    (inBody (fun s => s.ph) s a → inBody (fun s => s.ph) s b → a = b) ∧
+    (inBody (fun s => s.ph) s a → holdsLock (fun s => s.ph) s a) :=
+  ⟨fun hA hB => layered_x_lock_exclusive c s hs a b ha hb hA hB,
+   fun hA hB => layered_x_body_exclusive c s hs a b ha hb hA hB, fun h => h.1⟩
+
+/-- layered / layered_sorted: every worker combines exactly once per job (the log of completed `combine()` bodies of a finished job is
+a permutation of the workers `1..n`; empty without combine), never twice at any time -/
+theorem C17.layered_combine_once (c : LCfg) (s : XSt LSt) (hs : c.XReach s) :
+    s.log.Nodup ∧ (LCfg.final s.base = true → s.log.Perm (if c.comb then (List.range c.n).map (· + 1) else [])) :=
+  ⟨(layered_x_log_inv c s hs).1, fun hf => layered_x_combine_once c s hs hf⟩
+
+/-- layered / layered_sorted: the combined result = the fold of the workers' local results in ANY completion order = the fold over the
+workers `1..n` (commutative, associative combination; in floating point: up to summation-order rounding) -/
+theorem C17.layered_combined_result (c : LCfg) (s : XSt LSt) (hs : c.XReach s) (hf : LCfg.final s.base = true)
+    {α : Type} (op : α → α → α) (hc : ∀ a b, op a b = op b a)
+    (ha : ∀ a b c, op (op a b) c = op a (op b c)) (z : α) (loc : Nat → α) (hcomb : c.comb = true) :
+    combinedResult op z loc s.log = combinedResult op z loc ((List.range c.n).map (· + 1)) :=
+  layered_x_result c s hs hf op hc ha z loc hcomb
+
+/-- layered / layered_sorted: the refinement is a refinement - its base component is a reachable state of the protocol machine, so all
+theorems about the protocol machine hold along refined runs -/
+theorem C17.layered_combine_refines (c : LCfg) (s : XSt LSt) (hs : c.XReach s) : c.Reach s.base :=
+  layered_x_base_reach c s hs
+
+/-- colored: at most one worker holds `_thread_mutex`, at most one is in the body of `combine()`, and a body only
+runs while its worker holds the mutex - for all interleavings -/
+theorem C17.colored_combine_exclusive (c : CCfg) (s : XSt CSt) (hs : c.XReach s) (a b : Nat)
+    (ha : 1 ≤ a ∧ a ≤ c.n) (hb : 1 ≤ b ∧ b ≤ c.n) :
+    (holdsLock (fun s => s.ph) s a → holdsLock (fun s => s.ph) s b → a = b) ∧
+    (inBody (fun s => s.ph) s a → inBody (fun s => s.ph) s b → a = b) ∧
+    (inBody (fun s => s.ph) s a → holdsLock (fun s => s.ph) s a) :=
+  ⟨fun hA hB => colored_x_lock_exclusive c s hs a b ha hb hA hB,
+   fun hA hB => colored_x_body_exclusive c s hs a b ha hb hA hB, fun h => h.1⟩
+
+/-- colored: every worker combines exactly once per job (the log of completed `combine()` bodies of a finished job is
+a permutation of the workers `1..n`; empty without combine), never twice at any time -/
+theorem C17.colored_combine_once (c : CCfg) (s : XSt CSt) (hs : c.XReach s) :
+    s.log.Nodup ∧ (CCfg.final s.base = true → s.log.Perm (if c.comb then (List.range c.n).map (· + 1) else [])) :=
+  ⟨(colored_x_log_inv c s hs).1, fun hf => colored_x_combine_once c s hs hf⟩
+
+/-- colored: the combined result = the fold of the workers' local results in ANY completion order = the fold over the
+workers `1..n` (commutative, associative combination; in floating point: up to summation-order rounding) -/
+theorem C17.colored_combined_result (c : CCfg) (s : XSt CSt) (hs : c.XReach s) (hf : CCfg.final s.base = true)
+    {α : Type} (op : α → α → α) (hc : ∀ a b, op a b = op b a)
+    (ha : ∀ a b c, op (op a b) c = op a (op b c)) (z : α) (loc : Nat → α) (hcomb : c.comb = true) :
+    combinedResult op z loc s.log = combinedResult op z loc ((List.range c.n).map (· + 1)) :=
+  colored_x_result c s hs hf op hc ha z loc hcomb
+
+/-- colored: the refinement is a refinement - its base component is a reachable state of the protocol machine, so all
+theorems about the protocol machine hold along refined runs -/
+theorem C17.colored_combine_refines (c : CCfg) (s : XSt CSt) (hs : c.XReach s) : c.Reach s.base :=
+  colored_x_base_reach c s hs
+
+/-- jobs without scatter (every strategy, incl. automatic): at most one worker holds `_thread_mutex`, at most one is in the body of `combine()`, and a body only
+runs while its worker holds the mutex - for all interleavings -/
+theorem C17.noscatter_combine_exclusive (c : NCfg) (s : XSt NSt) (hs : c.XReach s) (a b : Nat)
+    (ha : 1 ≤ a ∧ a ≤ c.n) (hb : 1 ≤ b ∧ b ≤ c.n) :
+    (holdsLock (fun s => s.ph) s a → holdsLock (fun s => s.ph) s b → a = b) ∧
+    (inBody (fun s => s.ph) s a → inBody (fun s => s.ph) s b → a = b) ∧
+    (inBody (fun s => s.ph) s a → holdsLock (fun s => s.ph) s a) :=
+  ⟨fun hA hB => noscatter_x_lock_exclusive c s hs a b ha hb hA hB,
+   fun hA hB => noscatter_x_body_exclusive c s hs a b ha hb hA hB, fun h => h.1⟩
+
+/-- jobs without scatter (every strategy, incl. automatic): every worker combines exactly once per job (the log of completed `combine()` bodies of a finished job is
+a permutation of the workers `1..n`; empty without combine), never twice at any time -/
+theorem C17.noscatter_combine_once (c : NCfg) (s : XSt NSt) (hs : c.XReach s) :
+    s.log.Nodup ∧ (NCfg.final s.base = true → s.log.Perm (if c.comb then (List.range c.n).map (· + 1) else [])) :=
+  ⟨(noscatter_x_log_inv c s hs).1, fun hf => noscatter_x_combine_once c s hs hf⟩
+
+/-- jobs without scatter (every strategy, incl. automatic): the combined result = the fold of the workers' local results in ANY completion order = the fold over the
+workers `1..n` (commutative, associative combination; in floating point: up to summation-order rounding) -/
+theorem C17.noscatter_combined_result (c : NCfg) (s : XSt NSt) (hs : c.XReach s) (hf : NCfg.final s.base = true)
+    {α : Type} (op : α → α → α) (hc : ∀ a b, op a b = op b a)
+    (ha : ∀ a b c, op (op a b) c = op a (op b c)) (z : α) (loc : Nat → α) (hcomb : c.comb = true) :
+    combinedResult op z loc s.log = combinedResult op z loc ((List.range c.n).map (· + 1)) :=
+  noscatter_x_result c s hs hf op hc ha z loc hcomb
+
+/-- jobs without scatter (every strategy, incl. automatic): the refinement is a refinement - its base component is a reachable state of the protocol machine, so all
+theorems about the protocol machine hold along refined runs -/
+theorem C17.noscatter_combine_refines (c : NCfg) (s : XSt NSt) (hs : c.XReach s) : c.Reach s.base :=
+  noscatter_x_base_reach c s hs
 
 /-- the hypotheses of `thread_layers_spec` / `layered_safe_built` are satisfiable by a non-trivial value:
 8 layers of sizes 1..8, 3 requested workers -/
